@@ -434,7 +434,14 @@ fn container_path(dir: &Path, stem: &str, container: &str) -> PathBuf {
 
 /// real writer; `Err((what, message))`
 fn write_container(rt: &tokio::runtime::Runtime, src: &mut MemSource, container: &str, path: &Path) -> Result<(), (&'static str, String)> {
-	remove(path);
+	write_container_opt(rt, src, container, path, true)
+}
+
+/// `clean = false`: whatever is at `path` stays there (class "pre-existing state")
+fn write_container_opt(rt: &tokio::runtime::Runtime, src: &mut MemSource, container: &str, path: &Path, clean: bool) -> Result<(), (&'static str, String)> {
+	if clean {
+		remove(path);
+	}
 	let r = catch(|| {
 		rt.block_on(async {
 			match container {
@@ -736,6 +743,211 @@ fn emit_boundary(out: &mut Out, rt: &tokio::runtime::Runtime, dir: &Path, delta:
 }
 
 // ---------------------------------------------------------------------------------------------
+// checklist families: metadata sizes, pre-existing state, independent writers, extreme coordinates
+// ---------------------------------------------------------------------------------------------
+
+/// a document whose serialised form (`TileJSON::as_string`) is exactly `target` bytes long; `noise`: the padding is
+/// (seeded) random text, so that the compressed metadata is long as well
+fn doc_of_len(target: usize, noise: Option<&mut Rng>) -> Option<String> {
+	let base = r#"{"description":"","name":"size","tilejson":"3.0.0"}"#;
+	if target < base.len() {
+		return None;
+	}
+	let n = target - base.len();
+	let pad: String = match noise {
+		None => "a".repeat(n),
+		Some(r) => (0..n).map(|_| *r.pick(b"abcdefghijklmnopqrstuvwxyzABCDEFGHIJKLMNOPQRSTUVWXYZ0123456789 .,;-_") as char).collect(),
+	};
+	let doc = format!(r#"{{"description":"{pad}","name":"size","tilejson":"3.0.0"}}"#);
+	match catch(|| TileJSON::try_from(doc.as_str()).map(|t| t.as_string().len())) {
+		Ok(Ok(l)) if l == target => Some(doc),
+		_ => None,
+	}
+}
+
+/// checklist 1/3: metadata lengths at the byte-count boundaries of the formats (varint 127/128, tar block 512, page 4096,
+/// PMTiles root/metadata offset 16384, deflate window 32768, u16 65536, thorough: 1 MiB), in EVERY container
+fn emit_sizes(out: &mut Out, rt: &tokio::runtime::Runtime, dir: &Path, rng: &mut Rng, thorough: bool) {
+	let mut targets: Vec<usize> = vec![];
+	let bases: &[usize] = if thorough { &[64, 128, 256, 512, 1000, 1024, 2048, 4096, 8192, 16257, 16384, 32768, 65536, 131072, 1 << 20] } else { &[128, 512, 4096, 16384, 32768, 65536] };
+	for b in bases {
+		targets.extend([b - 1, *b, b + 1]);
+	}
+	let tiles: Vec<Tile> = vec![(3, 1, 2), (3, 2, 2)];
+	for t in targets {
+		for noisy in [false, true] {
+			let doc = match doc_of_len(t, if noisy { Some(rng) } else { None }) {
+				Some(d) => d,
+				None => continue,
+			};
+			for c in CONTAINERS {
+				let comps: &[TileCompression] = if thorough { &[TileCompression::Uncompressed, TileCompression::Gzip, TileCompression::Brotli] } else if noisy { &[TileCompression::Gzip] } else { &[TileCompression::Uncompressed, TileCompression::Brotli] };
+				for comp in comps {
+					out.count("container_size_family");
+					emit_container(out, rt, dir, c, *comp, &doc, &tiles, false);
+				}
+			}
+		}
+	}
+}
+
+fn r_line(container: &str, comp: TileCompression, a: &str, b: &str, tiles: &[Tile]) -> String {
+	format!("C17r {container} {} {} {} {}", comp_name(comp), hex(a.as_bytes()), hex(b.as_bytes()), tiles_str(tiles))
+}
+
+/// checklist 5: the output already exists (an older, longer container with another document at the same path) and the
+/// container is opened twice: the second document must come back, both times
+fn emit_reuse(out: &mut Out, rt: &tokio::runtime::Runtime, dir: &Path, container: &str, comp: TileCompression, doc_a: &str, doc_b: &str, tiles: &[Tile]) {
+	let line = r_line(container, comp, doc_a, doc_b, tiles);
+	let (Ok(g), Ok(mut src_a), Ok(mut src_b)) = (expected_object(doc_b), build_source(doc_a, comp, tiles), build_source(doc_b, comp, &tiles[..1.max(tiles.len() / 2)])) else { return };
+	let path = container_path(dir, "r", container);
+	out.eval(&line, true);
+	out.count(&format!("reuse_{container}"));
+	let mut verdict: Option<(&'static str, String)> = None;
+	if let Err(e) = write_container(rt, &mut src_a, container, &path) {
+		verdict = Some(e);
+	} else if let Err(e) = write_container_opt(rt, &mut src_b, container, &path, false) {
+		// refusing to overwrite is "failing loudly": acceptable
+		out.count(&format!("reuse_{container}_refused"));
+		let _ = e;
+	} else {
+		for round in 0..2 {
+			match read_container(rt, container, &path) {
+				// a directory that now holds tiles of two formats/compressions is refused loudly: acceptable
+				Err((_, m)) if container == "directory" && m.contains("found multiple tile") => {
+					out.count("reuse_directory_mixed_refused");
+					break;
+				}
+				Err(e) => verdict = Some(e),
+				Ok(t) => match catch(|| real_object(&t)) {
+					Err(m) => verdict = Some(("panic", m)),
+					Ok(r) => {
+						let mut narrower = false;
+						let kept = &tiles[..1.max(tiles.len() / 2)];
+						// a directory keeps the older tiles that the second write did not overwrite: coverage = all of them
+						let cov_tiles: &[Tile] = if container == "directory" { tiles } else { kept };
+						if let Some((w, m)) = container_rule(&g, &r, cov_tiles, container == "directory", &mut narrower) {
+							verdict = Some((w, format!("open #{}: {m}; returned {}", round + 1, trunc(&obj_text(&r), 300))));
+						}
+					}
+				},
+			}
+			if verdict.is_some() {
+				break;
+			}
+		}
+	}
+	remove(&path);
+	match verdict {
+		None => out.oracle(true, "", json!(null), json!(null)),
+		Some((what, msg)) => out.oracle(false, &format!("C17 container: {container}: {what} (written over an existing container)"), json!({"kind": "container", "container": container, "what": what, "reuse": true}), json!({"case": line, "message": msg, "given": obj_text(&g)})),
+	}
+}
+
+fn i_line(container: &str, meta: &[u8], tiles: &[Tile]) -> String {
+	format!("C17i {container} {} {}", hex(meta), tiles_str(tiles))
+}
+
+/// checklist 9: containers produced by the INDEPENDENT writers (harness/src/indep_formats.rs; tar and directory by
+/// hand) whose metadata text uses the freedoms of JSON (whitespace, escapes, exponents, duplicate keys): the reader must
+/// hand out the document that text denotes
+fn emit_indep(out: &mut Out, rt: &tokio::runtime::Runtime, dir: &Path, container: &str, meta: &[u8], tiles: &[Tile]) {
+	use crate::indep_formats as ind;
+	let line = i_line(container, meta, tiles);
+	let Ok(text) = std::str::from_utf8(meta) else { return };
+	let g = match expected_object(text) {
+		Ok(g) => g,
+		Err(m) => {
+			out.count("indep_doc_not_expressible");
+			if out.notes.len() < 40 {
+				out.notes.push(format!("C17i text outside the reference reader's model ({m}): {}", trunc(text, 120)));
+			}
+			return;
+		}
+	};
+	let map: ind::TileMap = tiles.iter().map(|(z, x, y)| ((*z, *x, *y), vec![0x89, b'P', b'N', b'G', *z, *x as u8, *y as u8])).collect();
+	let path = container_path(dir, "i", container);
+	remove(&path);
+	let mut r = Rng(7);
+	let written: Result<(), String> = match container {
+		"versatiles" => {
+			let mut ch = ind::VtChoices::plain(ind::Fmt::Png, ind::Comp::None);
+			ch.meta = Some(meta.to_vec());
+			std::fs::write(&path, ind::encode_versatiles(&map, &ch, &mut r).bytes).map_err(|e| e.to_string())
+		}
+		"pmtiles" => {
+			let mut ch = ind::PmChoices::plain(2, 1);
+			ch.meta = meta.to_vec();
+			std::fs::write(&path, ind::encode_pmtiles(&map, &ch, &mut r).bytes).map_err(|e| e.to_string())
+		}
+		"tar" => (|| -> Result<(), String> {
+			let f = std::fs::File::create(&path).map_err(|e| e.to_string())?;
+			let mut b = tar::Builder::new(f);
+			let mut add = |name: String, data: &[u8]| -> Result<(), String> {
+				let mut h = tar::Header::new_gnu();
+				h.set_size(data.len() as u64);
+				h.set_mode(0o644);
+				h.set_cksum();
+				b.append_data(&mut h, name, data).map_err(|e| e.to_string())
+			};
+			for ((z, x, y), p) in &map {
+				add(format!("./{z}/{x}/{y}.png"), p)?;
+			}
+			add("tiles.json".to_string(), meta)?;
+			b.finish().map_err(|e| e.to_string())
+		})(),
+		_ => (|| -> Result<(), String> {
+			for ((z, x, y), p) in &map {
+				let d = path.join(z.to_string()).join(x.to_string());
+				std::fs::create_dir_all(&d).map_err(|e| e.to_string())?;
+				std::fs::write(d.join(format!("{y}.png")), p).map_err(|e| e.to_string())?;
+			}
+			std::fs::write(path.join("meta.json"), meta).map_err(|e| e.to_string())
+		})(),
+	};
+	if let Err(e) = written {
+		out.notes.push(format!("C17i: independent writer failed: {e}"));
+		remove(&path);
+		return;
+	}
+	out.eval(&line, true);
+	out.count(&format!("indep_{container}"));
+	let verdict: Option<(&'static str, String)> = match read_container(rt, container, &path) {
+		Err(e) => Some(e),
+		Ok(t) => match catch(|| real_object(&t)) {
+			Err(m) => Some(("panic", m)),
+			Ok(r) => {
+				let mut narrower = false;
+				container_rule(&g, &r, tiles, container == "directory", &mut narrower).map(|(w, m)| (w, format!("{m}; returned {}", trunc(&obj_text(&r), 300))))
+			}
+		},
+	};
+	remove(&path);
+	match verdict {
+		None => out.oracle(true, "", json!(null), json!(null)),
+		Some((what, msg)) => out.oracle(false, &format!("C17 container: {container}: {what} (container from the independent writer)"), json!({"kind": "container", "container": container, "what": what, "indep": true}), json!({"case": line, "message": msg, "given": obj_text(&g), "metadata_text": trunc(text, 300)})),
+	}
+}
+
+/// the same document in another textual form: layout/escape/exponent variant of the real serialisation, optionally
+/// with a duplicate of the first key in front (the later one wins in every JSON reader)
+fn noncanonical_text(rng: &mut Rng, doc: &str) -> Option<String> {
+	let v = JsonValue::parse_str(doc).ok()?;
+	let mut s = String::new();
+	super::variant_text_strict(rng, &v, &mut s);
+	if rng.chance(1, 3) {
+		if let JsonValue::Object(o) = &v {
+			if let Some((k, _)) = o.0.iter().next() {
+				let mut ks = String::new();
+				super::variant_text_strict(rng, &JsonValue::String(k.clone()), &mut ks);
+				s = format!("{{{ks}: \"shadowed\" ,{}", &s[1..]);
+			}
+		}
+	}
+	Some(s)
+}
+
+// ---------------------------------------------------------------------------------------------
 // served tiles.json
 // ---------------------------------------------------------------------------------------------
 
@@ -823,10 +1035,16 @@ fn dechunk(mut b: &[u8]) -> Result<Vec<u8>, String> {
 }
 
 fn http_get(port: u16, path: &str) -> Result<Resp, String> {
+	http_req(port, path, Some("identity")).map(|(r, _)| r)
+}
+
+/// raw HTTP/1.1 GET; the body is returned decoded (gzip / br) together with the content-encoding the server chose
+fn http_req(port: u16, path: &str, accept: Option<&str>) -> Result<(Resp, String), String> {
 	let mut s = std::net::TcpStream::connect_timeout(&([127, 0, 0, 1], port).into(), Duration::from_secs(5)).map_err(|e| format!("connect: {e}"))?;
 	s.set_read_timeout(Some(Duration::from_secs(10))).ok();
 	s.set_write_timeout(Some(Duration::from_secs(10))).ok();
-	let req = format!("GET {path} HTTP/1.1\r\nHost: localhost\r\nAccept-Encoding: identity\r\nConnection: close\r\n\r\n");
+	let ae = accept.map_or(String::new(), |a| format!("Accept-Encoding: {a}\r\n"));
+	let req = format!("GET {path} HTTP/1.1\r\nHost: localhost\r\n{ae}Connection: close\r\n\r\n");
 	s.write_all(req.as_bytes()).map_err(|e| format!("send: {e}"))?;
 	let mut buf = vec![];
 	s.read_to_end(&mut buf).map_err(|e| format!("receive: {e}"))?;
@@ -859,10 +1077,14 @@ fn http_get(port: u16, path: &str) -> Result<Resp, String> {
 	} else {
 		rest.to_vec()
 	};
-	if !cenc.is_empty() && cenc != "identity" {
-		return Err(format!("content-encoding {cenc} although identity was requested"));
-	}
-	Ok(Resp { status, body })
+	let accepted = accept.unwrap_or("").to_ascii_lowercase();
+	let body = match cenc.as_str() {
+		"" | "identity" => body,
+		"gzip" if accepted.contains("gzip") => crate::indep_formats::gunzip(&body).map_err(|e| format!("gzip body: {e}"))?,
+		"br" if accepted.contains("br") => crate::indep_formats::brotli_d(&body).map_err(|e| format!("br body: {e}"))?,
+		_ => return Err(format!("content-encoding {cenc} although the request said {accept:?}")),
+	};
+	Ok((Resp { status, body }, cenc))
 }
 
 /// structural equality, numbers as f64
@@ -1034,6 +1256,73 @@ fn judge_http(out: &mut Out, it: &HItem, resp: Result<Resp, String>) {
 	}
 }
 
+/// request variants (checklist 7/10): the same document must come back on the `meta.json` alias, with a query string,
+/// and under every Accept-Encoding the server negotiates (decoded body identical as JSON)
+fn request_variants(out: &mut Out, port: u16, it: &HItem, main: &[u8]) {
+	let Ok(want) = serde_json::from_slice::<Value>(main) else { return };
+	let base = format!("/tiles/{}/tiles.json", it.id);
+	let variants: Vec<(String, Option<&str>)> = vec![
+		(format!("/tiles/{}/meta.json", it.id), Some("identity")),
+		(format!("{base}?v=1"), Some("identity")),
+		(base.clone(), None),
+		(base.clone(), Some("gzip")),
+		(base.clone(), Some("br")),
+		(base.clone(), Some("gzip, deflate, br")),
+		(base.clone(), Some("br;q=0.1, gzip;q=0.9")),
+		(base.clone(), Some("GZIP")),
+		(base.clone(), Some("*")),
+		(base.clone(), Some("")),
+	];
+	for (path, ae) in variants {
+		out.eval(&format!("{} variant {path} {ae:?}", it.line), true);
+		out.count("http_variant");
+		let verdict = match http_req(port, &path, ae) {
+			Err(m) => Some(format!("no usable response: {m}")),
+			Ok((r, _)) if r.status != 200 => Some(format!("status {}", r.status)),
+			Ok((r, cenc)) => match serde_json::from_slice::<Value>(&r.body) {
+				Ok(v) if json_eq(&v, &want) => {
+					out.count(&format!("http_variant_encoding_{}", if cenc.is_empty() { "identity" } else { &cenc }));
+					None
+				}
+				Ok(_) => Some("different document".into()),
+				Err(e) => Some(format!("invalid JSON: {e}")),
+			},
+		};
+		match verdict {
+			None => out.oracle(true, "", json!(null), json!(null)),
+			Some(m) => out.oracle(false, "C17 tiles.json: request variant answers differently", json!({"kind": "tilesjson", "what": "variant", "path_kind": if path.contains("meta.json") { "alias" } else if path.contains('?') { "query" } else { "accept-encoding" }}), json!({"case": it.line, "path": path, "accept_encoding": ae, "message": m})),
+		}
+	}
+}
+
+/// checklist 10: `versatiles probe` prints the metadata of the same file; it must be the document the reader hands out
+fn probe_agrees(out: &mut Out, bin: &Path, it: &HItem) {
+	let rt = runtime();
+	let Ok(t) = read_container(&rt, &it.container, &it.path) else { return };
+	let want = t.as_string();
+	let o = std::process::Command::new(bin).arg("probe").arg(&it.path).env("NO_COLOR", "1").output();
+	out.eval(&format!("{} probe", it.line), true);
+	out.count("probe_runs");
+	let verdict = match o {
+		Err(e) => Some(format!("cannot run probe: {e}")),
+		Ok(o) => {
+			let text = format!("{}{}", String::from_utf8_lossy(&o.stdout), String::from_utf8_lossy(&o.stderr));
+			if !o.status.success() {
+				Some(format!("probe failed: {}", trunc(&text, 300)))
+			} else if !text.contains(&format!("meta: {want:?}")) {
+				// (the pretty printer shows the value with Rust's `{:?}` string escaping)
+				Some(format!("probe output does not contain the reader's document; output: {}", trunc(&text, 400)))
+			} else {
+				None
+			}
+		}
+	};
+	match verdict {
+		None => out.oracle(true, "", json!(null), json!(null)),
+		Some(m) => out.oracle(false, "C17 probe: metadata printed by `versatiles probe` differs from reader.get_tilejson()", json!({"kind": "probe"}), json!({"case": it.line, "message": m, "expected": trunc(&want, 300)})),
+	}
+}
+
 /// serve the prepared containers from one process and judge each answer; falls back to one server
 /// per container when the common server does not come up
 fn serve_and_judge(out: &mut Out, bin: &Path, dir: &Path, items: &[HItem]) {
@@ -1047,9 +1336,16 @@ fn serve_and_judge(out: &mut Out, bin: &Path, dir: &Path, items: &[HItem]) {
 			out.count("server_starts");
 			for it in items {
 				let resp = http_get(srv.port, &format!("/tiles/{}/tiles.json", it.id));
+				let main_body = resp.as_ref().ok().filter(|r| r.status == 200).map(|r| r.body.clone());
 				judge_http(out, it, resp);
+				if let Some(main) = main_body {
+					request_variants(out, srv.port, it, &main);
+				}
 			}
 			drop(srv);
+			for it in items {
+				probe_agrees(out, bin, it);
+			}
 		}
 		Err(m) if items.len() == 1 => judge_http(out, &items[0], Err(m)),
 		Err(_) => {
@@ -1134,6 +1430,50 @@ pub fn run(args: &Args, out: &mut Out, rng: &mut Rng) {
 		let doc = gen_accepted_doc(out, rng);
 		emit_boundary(out, &rt, &dir, *d, 7 + k as u64, &doc);
 	}
+	// checklist families
+	emit_sizes(out, &rt, &dir, rng, args.thorough());
+	for i in 0..args.n(12, 120) {
+		let c = CONTAINERS[i % 4];
+		let (a, b) = (gen_accepted_doc(out, rng), gen_accepted_doc(out, rng));
+		// the older document is made much longer than the new one
+		let a_long = match doc_of_len(3000 + 977 * (i % 5), Some(rng)) {
+			Some(d) if i % 2 == 0 => d,
+			_ => a,
+		};
+		let tiles = gen_tiles(rng);
+		emit_reuse(out, &rt, &dir, c, *rng.pick(&comps), &a_long, &b, &tiles);
+	}
+	for i in 0..args.n(40, 400) {
+		let c = CONTAINERS[i % 4];
+		let doc = gen_accepted_doc(out, rng);
+		if let Some(text) = noncanonical_text(rng, &doc) {
+			let tiles = gen_tiles(rng);
+			emit_indep(out, &rt, &dir, c, text.as_bytes(), &tiles);
+		}
+	}
+	// option interplay (checklist 4): documents whose bounds / zoom keys collide with what the container derives
+	let interplay = [
+		r#"{"minzoom":"x","maxzoom":["a"],"bounds":[-180,-90,180,90]}"#,
+		r#"{"minzoom":0,"maxzoom":255,"bounds":[0,0,0,0],"center":[0,0,0]}"#,
+		r#"{"minzoom":255,"maxzoom":0,"bounds":[10,10,-10,-10]}"#,
+		r#"{"tiles":["http://other/{z}/{x}/{y}"],"name":"given","type":"given","format":"given","vector_layers":[{"id":"a","fields":{}}]}"#,
+		r#"{"bounds":[-1e-300,-5e-324,1e-300,5e-324],"fillzoom":7}"#,
+	];
+	for (k, doc) in interplay.iter().enumerate() {
+		let tiles = gen_tiles(rng);
+		for c in CONTAINERS {
+			out.count("container_interplay");
+			emit_container(out, &rt, &dir, c, comps[k % 3], doc, &tiles, false);
+		}
+	}
+	// extreme coordinates (checklist 8): level 0, the four corners of a level, high zoom levels
+	for (k, tiles) in [vec![(0u8, 0u32, 0u32)], vec![(1, 0, 0), (1, 1, 1)], vec![(8, 0, 0), (8, 255, 255)], vec![(8, 255, 0), (8, 0, 255)], vec![(0, 0, 0), (20, 0, 0), (21, (1 << 21) - 1, (1 << 21) - 1)], vec![(24, 0, (1 << 24) - 1), (25, (1 << 25) - 1, 0)], vec![(12, 2048, 2047), (12, 2047, 2048)]].iter().enumerate() {
+		let doc = gen_accepted_doc(out, rng);
+		for c in CONTAINERS {
+			out.count("container_extreme_coordinates");
+			emit_container(out, &rt, &dir, c, comps[k % 3], &doc, tiles, false);
+		}
+	}
 	out.extra.insert("c17io_container_seconds".into(), json!(t0.elapsed().as_secs_f64()));
 
 	// served tiles.json
@@ -1146,8 +1486,8 @@ pub fn run(args: &Args, out: &mut Out, rng: &mut Rng) {
 			let mut items = vec![];
 			for j in 0..batch {
 				let container = if (done + j) % 2 == 0 { "versatiles" } else { "pmtiles" };
-				let doc = gen_accepted_doc(out, rng);
-				let tiles = gen_tiles(rng);
+				let doc = if done == 0 && j < interplay.len() { interplay[j].to_string() } else { gen_accepted_doc(out, rng) };
+				let tiles = if done == 0 && j == 5 { vec![(0, 0, 0)] } else if done == 0 && j == 6 { vec![(9, 0, 0), (10, 1023, 1023)] } else { gen_tiles(rng) };
 				if let Some(it) = prepare_http(out, &rt, &dir, &format!("s{j}"), container, &doc, &tiles) {
 					items.push(it);
 				}
@@ -1171,6 +1511,14 @@ pub fn replay_line(out: &mut Out, line: &str) {
 	match t.as_slice() {
 		["C17c", container, comp, h, tiles] if CONTAINERS.contains(container) => match (parse_comp(comp), text(h), parse_tiles(tiles)) {
 			(Some(comp), Some(doc), Some(tiles)) => emit_container(out, &rt, &dir, container, comp, &doc, &tiles, false),
+			_ => out.notes.push(format!("unreadable replay line {line}")),
+		},
+		["C17r", container, comp, ha, hb, tiles] if CONTAINERS.contains(container) => match (parse_comp(comp), text(ha), text(hb), parse_tiles(tiles)) {
+			(Some(comp), Some(a), Some(b), Some(tiles)) => emit_reuse(out, &rt, &dir, container, comp, &a, &b, &tiles),
+			_ => out.notes.push(format!("unreadable replay line {line}")),
+		},
+		["C17i", container, h, tiles] if CONTAINERS.contains(container) => match parse_tiles(tiles) {
+			Some(tiles) => emit_indep(out, &rt, &dir, container, &unhex(h), &tiles),
 			_ => out.notes.push(format!("unreadable replay line {line}")),
 		},
 		["C17b", delta, seed, h] => match (delta.parse::<i64>(), seed.parse::<u64>(), text(h)) {
